@@ -23,7 +23,7 @@ def run(seed):
             out["error"] = r.stderr[-300:]
             return out
         for p in [prop] + EXTRA.get(seed, []):
-            env = dict(os.environ, VERIF_REPO=wt)
+            env = dict(os.environ, VERIF_REPO=wt, VERIF_OUT=wt + ".out")
             try:
                 q = subprocess.run([os.path.join(HERE, "vcheck"), p, "quick"], capture_output=True, text=True, env=env, timeout=1500)
                 viol = [l for l in q.stdout.splitlines() if l.startswith("VIOLATION")]
@@ -33,6 +33,8 @@ def run(seed):
                 out["checks"][p] = dict(rc=None, violations=0, summary="timeout")
     finally:
         subprocess.run(["git", "-C", "/repo", "worktree", "remove", "--force", wt], capture_output=True)
+        import shutil
+        shutil.rmtree(wt + ".out", ignore_errors=True)
     return out
 
 
@@ -40,7 +42,7 @@ def main():
     seeds = [s for s in SEEDS if not sys.argv[1:] or any(s.startswith(a) for a in sys.argv[1:])]
     res = []
     # the checks themselves use many cores and write evidence/replay files per property: run different properties in parallel only
-    with cf.ThreadPoolExecutor(max_workers=1) as ex:
+    with cf.ThreadPoolExecutor(max_workers=int(os.environ.get("SEED_JOBS", "1"))) as ex:
         for r in ex.map(run, seeds):
             caught = [p for p, c in r["checks"].items() if c.get("rc") == 1 and c.get("violations")]
             print(r["seed"], "applies" if r["applies"] else "DOES-NOT-APPLY", "caught by", caught or "NONE", flush=True)
